@@ -178,3 +178,8 @@ impl CompressionMethod {
         Ok(None)
     }
 }
+
+// Verification hook (inert unless built by `cargo kani`): harnesses for the private items of this module.
+#[cfg(kani)]
+#[path = "/verif/kani/incrate/h_geno_builder.rs"]
+mod verif_kani;
